@@ -25,3 +25,34 @@ def exprs(depth, vs, rng=None, cap=None):
             new.append(('|', a, b))
         lv.append(new)
     return lv
+
+
+# variable namings: the checks' expressions are written over a, b, c, d; half of the cases are renamed to names with
+# several characters, names whose string order differs from every ordering ('x10' < 'x9'), and names that begin like a
+# Python keyword or constant (C17/C18 speak of "variables", not of one-letter names)
+NAMINGS = [
+    {'a': 'x1', 'b': 'x10', 'c': 'x9', 'd': 'x2'},
+    {'a': 'req', 'b': 'ack', 'c': 'busy', 'd': 'done'},
+    {'a': 'not_a', 'b': 'and1', 'c': 'True_x', 'd': 'or_'},
+    {'a': 'B', 'b': 'a_', 'c': '_c', 'd': 'dd'},
+]
+
+
+def rename_expr(e, m):
+    if e[0] == 'v':
+        return ('v', m[e[1]])
+    if e[0] == 'c':
+        return e
+    return (e[0],) + tuple(rename_expr(c, m) for c in e[1:])
+
+
+def rename_cases(cases):
+    """every second case renamed (cases are tuples of an ordering list followed by expressions)"""
+    out = []
+    for i, case in enumerate(cases):
+        if i % 2 == 0:
+            out.append(case)
+            continue
+        m = NAMINGS[(i // 2) % len(NAMINGS)]
+        out.append(tuple([m[v] for v in x] if isinstance(x, list) else rename_expr(x, m) for x in case))
+    return out
